@@ -293,6 +293,11 @@ class Client:
     def call_raises(self, interp: "Interp", callee: Value, node: ast.AST, st: State) -> List[str]:
         return [ANY_EXC]
 
+    def after_call(self, interp: "Interp", callee: Value, args: Sequence[Value], kwargs: Sequence[Tuple[str, Value]],
+                   node: ast.Call, st: State) -> State:
+        """Effect of a non-inlined call that returned normally (raise outcomes keep the pre-call state)."""
+        return st
+
     def await_raises(self, interp: "Interp", node: ast.AST) -> List[str]:
         return []
 
@@ -724,7 +729,7 @@ class Interp:
         if h.type is None:
             return "BaseException"
         if isinstance(h.type, ast.Tuple):
-            return None
+            return "|".join(self._exc_type_name(t) for t in h.type.elts)
         return self._exc_type_name(h.type)
 
     def _exc_type_name(self, t: ast.expr) -> str:
@@ -849,7 +854,9 @@ class Interp:
             if (old is not None and old == lv) or (v not in vals and len(vals) >= 2) or mentions_loop(v, lid) or _depth(v) > 12:
                 env[k] = lv
                 widened.append(lv)
-        facts = b.facts
+        # facts learned inside the loop body may be about values that are re-computed in the next
+        # iteration (same call site => same symbol): keep only what already held at the head
+        facts = b.facts & h.facts
         if any(mentions_loop(f[0], lid) for f in facts):
             facts = frozenset(f for f in facts if not mentions_loop(f[0], lid))
         # other definitions that mention a loop symbol are stale names after the back edge
@@ -1399,6 +1406,7 @@ class Interp:
             return self.inline_call(fi, gv, st, out, node)
         for ex in self.client.call_raises(self, cv, node, st):
             out.exc.append((ex, st))
+        st = self.client.after_call(self, cv, args, kwargs, node, st)
         return [(call_v, st)]
 
     def inline_call(self, fi: FuncInfo, gv: Value, st: State, out: Outcome, node: ast.AST):
